@@ -5,6 +5,7 @@ package props
 // a valid body, a data-only vote specification and the reference quorum oracle.
 
 import (
+	"bytes"
 	"fmt"
 	"time"
 
@@ -313,6 +314,11 @@ type VoteSpec struct {
 	Tamper      int `json:"tamper,omitempty"`       // body field changed after signing (0 = none)
 	SigKind     int `json:"sig_kind,omitempty"`     // 0 aggregate, 1 47 bytes, 2 49 bytes, 3 infinity, 4 another valid point
 	Class       string `json:"class"`
+	// Reuse > 0: replace the Votes by those of the (Reuse-1 mod k)-th earlier valid vote of the case, with the
+	// sequence and epoch fields rewritten to the current values
+	Reuse int `json:"reuse,omitempty"`
+	// Reimport (app slice only): the chain is restarted from its exported state before this vote is delivered
+	Reimport bool `json:"reimport,omitempty"`
 }
 
 // builtVote is a resolved vote plus the oracle's verdict.
@@ -327,6 +333,7 @@ type builtVote struct {
 	// message kinds bound the bitmap size, others do not)
 	unspecified bool
 	genuine    bool   // contains >= 1 genuine member share over the right seq/epoch
+	doc        []byte // the document an honest signature of this vote covers (true context, untampered body)
 }
 
 func tamperBody(b voteBody, which int) voteBody {
@@ -426,6 +433,7 @@ func (f *voteFixture) buildVote(s VoteSpec) (*builtVote, error) {
 		reject("doc:proposer")
 	}
 	doc := world.SignDoc(method, docCtx, body.doc())
+	out.doc = doc
 
 	// --- signers ---
 	var keys []world.BLSKey
@@ -553,4 +561,47 @@ func (f *voteFixture) buildVote(s VoteSpec) (*builtVote, error) {
 	out.body = final
 	out.msg = final.msg(msgProposer, votes)
 	return out, nil
+}
+
+
+// priorVote remembers a vote that was valid and accepted, with the document it signs.
+type priorVote struct {
+	votes *relayertypes.Votes
+	doc   []byte
+}
+
+func (f *voteFixture) docOf(b voteBody) []byte {
+	rv, err := f.sim.Node.RelayerView()
+	if err != nil {
+		return nil
+	}
+	ctx := world.VoteCtx{ChainID: f.sim.Spec.ChainID, Proposer: rv.Proposer, Sequence: rv.Sequence, Epoch: rv.Epoch}
+	return world.SignDoc(kindMethods[b.kind], ctx, b.doc())
+}
+
+// priorOf: the document was fixed when the vote was built (it depends on the sequence at that time).
+func (f *voteFixture) priorOf(v *builtVote) priorVote {
+	return priorVote{votes: voteOf(v.msg), doc: v.doc}
+}
+
+// reuseVote turns v into "the Votes of an earlier valid vote, relabelled for now, under v's body"; the reference
+// rejects it unless v's body under the current context is exactly what the earlier signature covers.
+func (f *voteFixture) reuseVote(v *builtVote, s VoteSpec, prior []priorVote) bool {
+	if s.Reuse <= 0 || len(prior) == 0 {
+		return false
+	}
+	p := prior[(s.Reuse-1)%len(prior)]
+	rv, err := f.sim.Node.RelayerView()
+	if err != nil {
+		return false
+	}
+	doc := f.docOf(v.body)
+	if doc == nil || bytes.Equal(doc, p.doc) {
+		return false
+	}
+	votes := &relayertypes.Votes{Sequence: rv.Sequence, Epoch: rv.Epoch, Voters: append([]byte{}, p.votes.Voters...), Signature: append([]byte{}, p.votes.Signature...)}
+	v.msg = v.body.msg(rv.Proposer, votes)
+	v.signer = f.memberAcc(rv.Proposer)
+	v.mustAccept, v.unspecified, v.reason, v.genuine = false, false, "signature-of-another-proposal", true
+	return true
 }
